@@ -14,7 +14,7 @@ for pid, c in sorted(CLAIMS["claimed"].items()):
         "engine": "vp_static",
         "level_claimed": {
             "category": "other",
-            "text": "Static analysis of /repo's working tree (ast; no repository code is imported or executed). A pass establishes exactly the structural clauses listed here and nothing else: " + c["clauses"] + " Not decided (named in DESIGN.md and in the evidence file under not_decided): " + c["not_decided"],
+            "text": "Static analysis of /repo's working tree: the source is parsed with ast and analysed or abstractly interpreted by vp_static's own interpreter over symbolic values; no repository code is imported or run by Python. A pass establishes exactly the structural clauses listed here and nothing else: " + c["clauses"] + " Not decided (named in DESIGN.md and in the evidence file under not_decided): " + c["not_decided"],
             "design_ref": "DESIGN.md section 5, " + pid,
         },
         "level_note": "Trusted base: CPython ast / re._parser; the hand-written spec tables and vocabulary tables in vp_static (each row cites the property sentence it encodes); ill-typed arguments are outside the quantifier. " + c.get("note", ""),
@@ -34,7 +34,7 @@ m = {
         "name": "vp_static",
         "path": "/verif/vp_static",
         "serves_properties": sorted(CLAIMS["claimed"]),
-        "kind_free_text": "repository-specific static analysis over Python ast: program index + call resolution, effect/alias analysis, raise-after-write ordering, order-type abstract interpretation of comparison-only bodies against spec decision tables, float-order monotonicity prover, text-format writer/reader agreement, alignment and sentinel dataflow",
+        "kind_free_text": "repository-specific static analysis over Python ast: program index + call resolution, effect/alias analysis, raise-after-write ordering, order-type abstract interpretation of comparison-only bodies against spec decision tables, float-order monotonicity prover, symbolic-document interpretation of the text writers and readers (atoms for times and labels, an independent specification-based tokenizer), alignment and sentinel dataflow",
     }],
     "checks": checks,
     "notes": "Exit codes of every command: 0 = all obligations proved (or refuted ones are listed in known_findings.json and printed as KNOWN-FINDING); 1 = VIOLATION line; 2 = ANALYSIS-ERROR (an anchor vanished or a construct is outside the modelled subset) - never a silent pass and never a VIOLATION. Fixed defects and known findings: known_findings.json.",
